@@ -12,7 +12,10 @@ correspondence: (1) names: random (class name, parameter list) through the REAL 
                 signature) and given to the model, which predicts every module name, the order of the emitted modules,
                 WHICH instance's body each module holds (first writer wins), the port order (SV), the always-block order
                 and the instance order of every module; the scanned module table (c13_scan.py) goes through wfModules;
-                (3) labelled aliasing probes (c13_gen.ALIAS_STREAMS).
+                (3) labelled aliasing probes (c13_gen.ALIAS_STREAMS);
+                (4) pass runs over SEVERAL translation-enabled sub-trees (c13_gen.multi_subtree: ordinary components,
+                Verilog placeholders, components containing one, the same class twice, explicit_module_name), ONE pass
+                application, against each sub-tree translated alone in a fresh process (direct oracle only, no model).
 direct oracle:  byte equality of the text across runs / seeds; one definition per module name, every instantiated module
                 defined, identifiers legal / not reserved / unique per module (c13_scan.direct_wf: regex fullmatch +
                 pymtl3's reserved set), also on the names the translator chose (before any text is scanned);
@@ -610,6 +613,118 @@ def run_batch(ck, designs, seeds, par=4):
     check_design(ck, d, per)
   evaluate_model(ck)
 
+# ----------------------------------------------------------------------------- several enabled sub-trees, one pass run
+
+def run_procs(ck, jobs, par=6):
+  """jobs: [(label, job dict, PYTHONHASHSEED)] -> {label: worker output}; every job is a fresh process"""
+  results, pending = {}, list(jobs)
+  while pending:
+    batch, pending = pending[:par], pending[par:]
+    procs = []
+    for label, job, seed in batch:
+      jobf = os.path.join(ck.workdir, f'mjob_{label}.json'); outf = os.path.join(ck.workdir, f'mout_{label}.json')
+      json.dump(job, open(jobf, 'w'))
+      env = dict(os.environ, PYTHONHASHSEED=str(seed), PYTHONDONTWRITEBYTECODE='1')
+      procs.append((label, outf, subprocess.Popen(['/venv/bin/python', os.path.abspath(c13_worker.__file__), jobf, outf], env=env,
+                                                  cwd=ck.workdir, stdout=subprocess.PIPE, stderr=subprocess.STDOUT, text=True)))
+    for label, outf, p in procs:
+      try: out, _ = p.communicate(timeout=900)
+      except subprocess.TimeoutExpired:
+        p.kill(); raise InfraError(f'worker {label} timed out')
+      if p.returncode != 0 or not os.path.exists(outf): raise InfraError(f'worker {label} failed ({p.returncode}): {out[-1500:]}')
+      results[label] = json.load(open(outf))
+  return results
+
+def first_diff(a, b):
+  la, lb = a.split('\n'), b.split('\n')
+  k = next((i for i, (x, y) in enumerate(zip(la, lb)) if x != y), min(len(la), len(lb)))
+  return {'line': k + 1, 'here': la[k] if k < len(la) else None, 'there': lb[k] if k < len(lb) else None}
+
+def multi_stream(ck, designs, seeds):
+  """ONE application of the translation pass over a design with several translation-enabled sub-trees (the pass builds
+  one translator and reuses it). Direct oracle, per enabled sub-tree: translated_top_module, the output file name and
+  the file's text equal those of the same sub-tree translated ALONE in a fresh process; the text is the same in every
+  run / hash seed; every file defines each module once, defines what it instantiates, and no module instantiates
+  itself; sub-trees with different hardware get different module names and files."""
+  designs_dir = None
+  for d in designs: designs_dir = c13_gen.write_design(ck.workdir, d)
+  c13_worker.setup_path(designs_dir)
+  importlib.invalidate_caches()
+  backends = list(c13_worker.BACKENDS)
+  jobs = []
+  for seed in seeds:
+    order = [{'module': d['module'], 'uid': d['uid'], 'only': None} for d in designs]
+    ck.rng.shuffle(order)
+    jobs.append((f'multi{seed}', {'designs_dir': designs_dir, 'outdir': os.path.join(ck.workdir, 'out', f'mseed{seed}'),
+                                  'multi': order, 'backends': backends}, seed))
+  for d in designs:
+    for nm, _, _ in d['children']:
+      jobs.append((f'alone_{d["uid"]}_{nm}', {'designs_dir': designs_dir, 'outdir': os.path.join(ck.workdir, 'out', f'alone_{nm}'),
+                                              'multi': [{'module': d['module'], 'uid': d['uid'], 'only': nm}], 'backends': backends},
+                   ck.rng.randrange(1000)))
+  res = run_procs(ck, jobs)
+  for d in designs:
+    mod = importlib.import_module(d['module'])
+    for b in backends:
+      case = {'design': d['uid'], 'kind': 'multi', 'stream': d['stream'], 'backend': b, 'children': d['children'], 'source': d['source'],
+              'extra_files': d['extra_files']}
+      try:
+        here = c13_worker.translate_multi(mod, b, os.path.join(ck.workdir, 'out', 'minproc', d['uid'], b))
+      except Exception as e:
+        here = {'error': f'{type(e).__name__}: {str(e)[:400]}'}
+      runs = [('inproc', here)] + [(f'seed{s}', res[f'multi{s}'][f"{d['uid']}||{b}"]) for s in seeds]
+      alone = {}
+      for nm, _, _ in d['children']:
+        r = res[f'alone_{d["uid"]}_{nm}'][f"{d['uid']}|{nm}|{b}"]
+        if 'error' in r: raise InfraError(f'sub-tree {nm} of {d["uid"]} does not translate alone ({b}): {r["error"]}')
+        alone[nm] = r[nm]
+      failed = [(l, r['error']) for l, r in runs if 'error' in r]
+      if failed:
+        ck.violation('subtree-pass-fails', {'finding': 'multi-subtree-pass'}, case,
+                     {'runs': failed[:2], 'oracle': 'every sub-tree translates alone, so one pass run over all of them must succeed'})
+        continue
+      for nm, kind, ex in d['children']:
+        ck.count({'design': d['uid'], 'src': hashlib.sha256(d['source'].encode()).hexdigest()[:16], 'backend': b, 'subtree': nm},
+                 nontrivial=len(d['children']) >= 2)
+        ck.hist('multi:kind', kind + ('+explicit' if ex else ''))
+        got, want = here[nm], alone[nm]
+        for label, r in runs[1:]:
+          if r[nm] != got:
+            ck.violation('nondeterministic-text', {'finding': 'multi-subtree-pass'}, dict(case, subtree=nm),
+                         {'run': label, 'modules': [got['module'], r[nm]['module']], 'files': [got['file'], r[nm]['file']],
+                          'text': first_diff(got['text'], r[nm]['text']), 'oracle': 'one pass run gives the same result in every process'})
+            break
+        for field in ('module', 'file', 'text'):
+          if got[field] != want[field]:
+            ck.violation('subtree-differs-from-alone', {'finding': 'multi-subtree-pass'}, dict(case, subtree=nm),
+                         {'what': {'module': 'translated_top_module', 'file': 'translated_filename', 'text': 'text of the output file'}[field],
+                          'in_one_pass_run': got[field] if field != 'text' else first_diff(got['text'], want['text']),
+                          'alone_in_a_fresh_process': want[field] if field != 'text' else '(see the differing line: here = pass run, there = alone)',
+                          'subtree': f'{nm} ({kind})', 'order_of_the_pass': sorted(x for x, _, _ in d['children']),
+                          'oracle': 'a translation-enabled sub-tree is translated by a pass run over several sub-trees exactly as it is alone'})
+            break
+        try:
+          tab = c13_scan.scan(got['text'])
+          if tab['unknown']: raise c13_scan.ScanError(f'line {tab["unknown"][0]} not understood')
+        except c13_scan.ScanError as e:
+          if got['text'] == want['text']: raise InfraError(f'scanner: {d["uid"]}/{nm} ({b}): {e}')
+          continue
+        bad = c13_scan.direct_wf(tab, ck.reserved)
+        bad += [('module-instantiates-itself', m['name']) for m in tab['modules'] if any(x == m['name'] for x, _ in m['insts'])]
+        for k2, where in bad[:2]:
+          ck.violation('illegal-identifier' if k2.startswith('illegal') else k2, {'finding': 'multi-subtree-pass'}, dict(case, subtree=nm),
+                       {'what': k2, 'where': where, 'file': got['file'], 'oracle': 'in every output file modules are defined once, instantiated '
+                        'modules are defined, no module instantiates itself, identifiers are legal'})
+      kids = [nm for nm, _, _ in d['children']]
+      for i, x in enumerate(kids):
+        for y in kids[i + 1:]:
+          if alone[x]['text'] != alone[y]['text'] and (here[x]['module'] == here[y]['module'] or here[x]['file'] == here[y]['file']):
+            ck.violation('module-name-alias', {'finding': 'multi-subtree-pass'}, dict(case, subtree=[x, y]),
+                         {'modules': [here[x]['module'], here[y]['module']], 'files': [here[x]['file'], here[y]['file']],
+                          'alone': [alone[x]['module'], alone[y]['module']],
+                          'oracle': 'sub-trees with different hardware get different module names and different output files'})
+      ck.hist('feature', d['features'][0][:40])
+
 # ----------------------------------------------------------------------------- names stream (no designs)
 
 class StubRType:
@@ -790,6 +905,7 @@ def run(ck):
   chunk = 40
   for i in range(0, len(designs), chunk):
     run_batch(ck, designs[i:i + chunk], seeds)
+  multi_stream(ck, [c13_gen.multi_subtree(ck.rng, nxt()) for _ in range(8 if quick else 60)], list(seeds)[:3])
   ck.extra_cov['hash_seeds'] = list(seeds)
   ck.extra_cov['translations_per_design_and_backend'] = 2 + 2 * len(list(seeds))
   ck.extra_cov['rejected_translations'] = ck.rejected[:10]
